@@ -53,8 +53,14 @@ CheckLeaf(r, j, rec, N, iv, spec, t, x, ol) ==
      THEN Chk(SeqSeqEq(ol.chain, LeafChain(N, rec.I, spec, iv, x, t)), r, j, Cl(rec, "style_token"), N[x].tag)
      ELSE TRUE
 
+\* a white-space-only leaf (tag " ", generated as the first text of its paragraph) is presented iff xml:space="preserve"
+\* applies to it; every other leaf as in Imsc!XmlVisible
+TVisible(rec, N, iv, x, t) ==
+  /\ XmlShown(N, iv, x, t)
+  /\ N[x].tag = " " => NearestAttr(N, N[x].parent, "space", IF rec.space = "" THEN "default" ELSE rec.space) = "preserve"
+
 CheckRegion(r, j, rec, N, iv, spec, t, rid, o) ==
-  LET exp == SelectSeq(TextNodes(N), LAMBDA x : XmlVisible(N, iv, x, t) /\ RegionOf(N, x) = rid)
+  LET exp == SelectSeq(TextNodes(N), LAMBDA x : TVisible(rec, N, iv, x, t) /\ RegionOf(N, x) = rid)
       ol  == ObsLeaves(o, rid)
   IN  IF ~(Len(ol) = Len(exp) /\ \A k \in 1..Len(ol) : ol[k].tag = N[exp[k]].tag)
       THEN Fail(r, j, Cl(rec, "region_of"), rid)
@@ -67,7 +73,7 @@ CheckRegion(r, j, rec, N, iv, spec, t, rid, o) ==
 CheckTime(r, rec, N, iv, spec, j) ==
   LET t == rec.T[j]
       o == rec.obs[j]
-      expAll == {N[x].tag : x \in {y \in 1..Len(N) : XmlVisible(N, iv, y, t)}}
+      expAll == {N[x].tag : x \in {y \in 1..Len(N) : TVisible(rec, N, iv, y, t)}}
   IN  IF AllObsTags(o) # expAll THEN Fail(r, j, Cl(rec, "visible_set"), "")
       ELSE \A rid \in Rids(N) \cup ObsRids(o) : CheckRegion(r, j, rec, N, iv, spec, t, rid, o)
 
